@@ -52,3 +52,22 @@ def normChain (l : List String) : List String :=
   l.map fun n => if n == "newTypeValidator" then "typeValidator" else n
 
 end VM.Expect
+
+namespace VM.Expect
+open VM.Generated
+
+/-- validators that own child slots -/
+def slotOwners : List String :=
+  ["SchemaValidator.Validate", "itemsValidator.Validate", "HeaderValidator.Validate", "ParamValidator.Validate",
+   "schemaPropsValidator.validateAnyOf", "schemaPropsValidator.validateOneOf",
+   "schemaPropsValidator.validateAllOf", "schemaPropsValidator.validateNot"]
+
+/-- validators whose `Validate` must carry the deferred redeem of self and children -/
+def deferOwners : List String :=
+  ["SchemaValidator.Validate", "itemsValidator.Validate", "HeaderValidator.Validate", "ParamValidator.Validate",
+   "schemaPropsValidator.Validate"]
+
+/-- reads after a merge that are known to be harmless: the operand is not a pooled result -/
+def harmlessUseAfterMerge : List (String × String) := [("SpecValidator.Validate", "warnings")]
+
+end VM.Expect
